@@ -7,6 +7,7 @@ import Gts.Model.Seq
 import Gts.Model.GbSlice
 import Gts.Lemmas.Bounds
 import Gts.Lemmas.Window
+import Gts.Lemmas.RefInfo
 import Gts.Lemmas.Record
 import Gts.Props.C04
 namespace Gts.C03
@@ -143,12 +144,20 @@ theorem renumber_numbers (infos : List Pars.Bytes) :
   · intro i h1 h2
     simp
 
-theorem sliceRefs_renumbered (pref : Pars.Bytes) (a b : Int) (refs out : List Ref)
-    (h : sliceRefs pref a b refs = some out) : ∃ infos, out = renumber infos := by
-  unfold sliceRefs at h
-  simp only [Option.map_eq_some_iff] at h
-  obtain ⟨l, _, rfl⟩ := h
-  exact ⟨_, rfl⟩
+theorem sliceRefs_renumbered (pref : Pars.Bytes) (a b : Int) (refs : List Ref) :
+    ∃ infos, sliceRefs pref a b refs = renumber infos := ⟨_, rfl⟩
+
+/-- every range accepted by `parseReferenceInfo` is proper (`start < end`), so `gts.Range` never
+panics while the metadata of a slice is clipped (an inverted range such as `(bases 5 to 2)` is a
+parse error and the info is kept verbatim) -/
+theorem parseRefInfo_proper (pref info : Pars.Bytes) (rs : List (Int × Int))
+    (h : parseRefInfo pref info = some rs) : ∀ r ∈ rs, r.1 < r.2 :=
+  RefInfo.parseRefInfo_proper pref info rs h
+
+/-- an unparsable or inverted info is kept verbatim, a parsable one is clipped or dropped -/
+theorem sliceRefInfo_verbatim (pref info : Pars.Bytes) (a b : Int)
+    (h : parseRefInfo pref info = none) : sliceRefInfo pref a b info = some info := by
+  simp [sliceRefInfo, h]
 
 /-- non-vacuity -/
 example : wf (compl (joined [ranged 2 5 true false, point 7, ranged 9 12 false true])) = true ∧
